@@ -305,9 +305,9 @@ O(id='_range_intersection.simple', props=['C09'], kind='bounded', entry='h_range
 UB = dict(harness='harness/h_unber.c', units=['asn1-tools/unber/libasn1_unber_tool.c'],
           incdirs=['asn1-tools/unber', 'skeletons', 'libasn1parser', 'libasn1common', 'libasn1fix', 'libasn1print'],
           fp_restrict=[(r'nextChar\)$', ['mem_next']), (r'bytesRead\)$', ['mem_read']), (r'vprintfError\)$', ['err_vprintf']), (r'vprintf\)$', ['out_vprintf'])])
-O(id='unber_stream.b7', props=['C20', 'C04'], kind='bounded', entry='h_unber_stream', functions=['unber_stream', 'process_deeper', 'print_TL', 'print_V'],
-  unwind=10, cbmc=['--unwindset', 'process_deeper:9', '--malloc-may-fail', '--malloc-fail-null', '--memory-leak-check'],
-  stubs=['stubs/vsnprintf.c'], bound='every input of at most 7 octets, every option combination (-p, -1, -m); recursion depth <= 8',
+O(id='unber_stream.b5', props=['C20', 'C04'], kind='bounded', entry='h_unber_stream', defines=['VF_UNBER_N=5'], functions=['unber_stream', 'process_deeper', 'print_TL', 'print_V'],
+  unwind=8, cbmc=['--unwindset', 'process_deeper:7', '--malloc-may-fail', '--malloc-fail-null', '--memory-leak-check'],
+  stubs=['stubs/vsnprintf.c'], bound='every input of at most 5 octets, every option combination (-p, -1, -m); recursion depth <= 6',
   trusted=['snprintf/vsnprintf stub (stubs/vsnprintf.c)'], min_props=100, timeout=1500, **UB)
 
 # ---------------------------------------------------------------- C06: BIT STRING DER
@@ -378,6 +378,15 @@ O(id='emit_single_member_OER_constraint_value', props=['C02', 'C09'], kind='widt
 
 O(id='INTEGER_compare.b3', props=['C04', 'C01'], kind='bounded', entry='h_INTEGER_compare', functions=['INTEGER_compare'], unwind=6,
   cbmc=['--no-malloc-may-fail'], bound='every pair of INTEGERs of 0..3 octets (exact-size heap buffers, NULL allowed for empty)', min_props=30, **INT_SAT)
+
+# ---------------------------------------------------------------- C18: open types (runtime half)
+OTY = dict(harness='harness/h_open_type.c', units=[SK + 'OPEN_TYPE.c', SK + 'OPEN_TYPE_oer.c', SK + 'constr_CHOICE.c'],
+           fp_restrict=[(r'type_selector\)$', ['selector']), (r'ber_decoder\)$', ['stub_ber']), (r'oer_decoder\)$', ['stub_oer']), (r'free_struct\)$', ['stub_free', 'choice_free'])])
+O(id='OPEN_TYPE_ber_get', props=['C18', 'C14', 'C04'], kind='bounded', entry='h_OPEN_TYPE_ber_get', functions=['OPEN_TYPE_ber_get', 'CHOICE_variant_set_presence', '_fetch_present_idx', '_set_present_idx'],
+  unwind=20, cbmc=['--no-malloc-may-fail'], bound='one open type member (inline CHOICE of two variants), selector and selected type are recording stubs; every selector result, every inner decoder outcome',
+  min_props=50, timeout=600, **OTY)
+O(id='OPEN_TYPE_oer_get', props=['C18', 'C04'], kind='bounded', entry='h_OPEN_TYPE_oer_get', functions=['OPEN_TYPE_oer_get', 'oer_open_type_get', 'CHOICE_variant_set_presence'],
+  unwind=20, cbmc=['--no-malloc-may-fail'], bound='as OPEN_TYPE_ber_get, input of at most 16 octets', min_props=50, timeout=600, **OTY)
 
 UNVERIFIED = {
  'C07': ['asn_encode_to_buffer / asn_encode_to_new_buffer / uper_encode_to_buffer / uper_encode_to_new_buffer with a UPER type encoder: obligations exist (tier experimental) but do not discharge (symbolic-length memcpy of the 32-octet bit scratch space runs out of memory); asn_encode with UPER is covered',
